@@ -31,6 +31,42 @@ def fle(a, b):
     return a <= b
 
 
+TOL = Fraction(1, 1 << 13)   # float mode: |reported score - exact chained score| allowed (rounding of <= 15 float32 sums)
+GAP = Fraction(1, 1 << 9)    # float mode: a selection decided by a smaller margin is treated like a tie
+
+
+def is_float(case):
+    """float mode: the library's own update_log_probs_for_step (nothing quantised); scores are plain
+    floats, compared to the exact rational model with tolerance TOL and the margin rule GAP."""
+    return case.get("via") == "nohook"
+
+
+def tie_like(case, flags):
+    if flags.get("tie"):
+        return True
+    g = flags.get("gap")
+    return bool(is_float(case) and g is not None and Fraction(g) < GAP)
+
+
+def close(case, a, b):
+    """score strings a, b agree (exactly, or within TOL in float mode)."""
+    if a == b:
+        return True
+    if not is_float(case) or "-inf" in (a, b):
+        return False
+    try:
+        return abs(Fraction(a) - Fraction(b)) <= TOL
+    except (ValueError, ZeroDivisionError):
+        return False
+
+
+def same_slots(case, fa, fb):
+    """two lists of finite slots {"score","len","path"} agree."""
+    return len(fa) == len(fb) and all(
+        a["len"] == b["len"] and a["path"] == b["path"] and close(case, a["score"], b["score"])
+        for a, b in zip(fa, fb))
+
+
 def norm_eos(V, eos):
     if eos is None:
         return None
@@ -41,12 +77,20 @@ def norm_eos(V, eos):
 
 class C04(PropertyCheck):
     pid = "C04"
-    rule = ("search cases: V<=4, width 1..V^T+2, max_iters 0..5 or unset, eos in {unset, each token, "
-            "negative index, out of range}, both finish_all_paths, batch in {unset,1,2,3} with per-element "
-            "seeds and eos-forcing depths (different finishing times), LM with/without hard zeros, uniform LM "
-            "(ties); small grids enumerated; advance cases: random dyadic tensors incl. -inf and malformed "
-            "arguments. non-trivial (search): >= 2 finite paths and a pruning happened, or batch elements "
-            "finish at different steps; (advance): K < candidates. distinct by the case dict")
+    rule = ("search cases: V<=6, width 1..V^T+2 (0/-1: ValueError), max_iters 0..5 or unset (negative: "
+            "RuntimeError), eos in {unset, each token, negative index, out of range}, both finish_all_paths, "
+            "pad_value in {-1, 0, the eos token, beyond the vocabulary, negative}, batch in {unset,1..5} with "
+            "per-element seeds and eos-forcing depths (different finishing times) or no initial state at all, "
+            "LM = hash model with threaded state (float32/float64 logits, with/without hard zeros, uniform = "
+            "ties) driven through a quantising hook (instance attribute / subclass) = exact mode; float mode = "
+            "the library's own update_log_probs_for_step with the hash model, the library's Extractable-/"
+            "MixableShallowFusionLanguageModel over two hash models, or the library's LookupLanguageModel over "
+            "a random back-off table (tolerance 2^-13, selection margin 2^-9); small grids enumerated incl. "
+            "max_iters=0 and step limits far beyond the finishing depth; advance cases: random dyadic tensors "
+            "incl. -inf, float32/float64, contiguous / strided / sliced / permuted storage, out-of-vocabulary "
+            "prefix tokens, malformed arguments. non-trivial (search): >= 2 "
+            "finite paths and a pruning happened, or batch elements finish at different steps; (advance): "
+            "K < candidates. distinct by the case dict")
     assumptions = [
         "float32 arithmetic is exact on the generated domain: log_probs_t quantised to multiples of 2^-8 / 2^-12 "
         "in [-30,0] through update_log_probs_for_step; every sum is checked to be a dyadic rational",
@@ -55,6 +99,9 @@ class C04(PropertyCheck):
         "the language model computes batch rows independently (true of the harness LM)",
         "update_log_probs_for_step does not modify log_probs_prev",
         "slots with score -inf are unspecified (paths/lengths not compared)",
+        "float mode (no hook): the model runs on the exact rational values of the floats the LM + log_softmax "
+        "return unbatched; reported scores are compared with tolerance 2^-13 and paths only when every "
+        "selection along the model's trajectory was decided by a margin >= 2^-9",
     ]
     exhaustive = {"quick": False, "thorough": False}
     quick_budget_s = 70
@@ -66,19 +113,29 @@ class C04(PropertyCheck):
 
     # ------------------------------------------------------------------ generators
     def _search_case(self, rng, V, T, width, eos, fa, batch, zeros=False, uniform=False, qbits=12,
-                     force=None, hard=False, via="instance"):
+                     force=None, hard=False, via="instance", pad=-1, lm=None, malformed=None):
         n = 1 if batch is None else batch
         seeds = [[rng.randrange(1, 1 << 30), rng.randrange(1, 1 << 30)] for _ in range(n)]
         if force is None:
             force = [None] * n
-        return {"kind": "search", "V": V, "width": width, "eos": eos, "finish_all": fa, "pad": -1,
-                "max_iters": T, "batch": batch, "seeds": seeds, "force": force, "qbits": qbits,
-                "lm": {"zeros": zeros, "uniform": uniform, "hard_force": hard}, "via": via}
+        opts = {"zeros": zeros, "uniform": uniform, "hard_force": hard}
+        opts.update(lm or {})
+        c = {"kind": "search", "V": V, "width": width, "eos": eos, "finish_all": fa, "pad": pad,
+             "max_iters": T, "batch": batch, "seeds": seeds, "force": force, "qbits": qbits,
+             "lm": opts, "via": via}
+        if malformed:
+            c["malformed"] = malformed
+        return c
+
+    @staticmethod
+    def _pad_choice(rng, V, eos):
+        e = norm_eos(V, eos)
+        return rng.choice([-1, -1, 0, e if isinstance(e, int) else 1, V, V + 5, -7])
 
     def _advance_case(self, rng, malformed=None):
-        N = rng.choice([1, 1, 2, 3])
-        Kp = rng.choice([1, 2, 3, 5])
-        V = rng.choice([1, 2, 3, 4])
+        N = rng.choice([1, 1, 2, 3, 4])
+        Kp = rng.choice([1, 2, 3, 5, 6])
+        V = rng.choice([1, 2, 3, 4, 6])
         S = rng.choice([0, 1, 2, 3, 4])
         width = rng.choice([1, 2, 3, Kp * V, Kp * V + 2, max(1, Kp * V - 1)])
         mode = rng.choice(["none", "full", "ragged", "short"]) if S else rng.choice(["none", "zero"])
@@ -90,7 +147,9 @@ class C04(PropertyCheck):
         pinf = rng.choice([0.0, 0.0, 0.15, 0.5])
         prev = [[sc(pinf) for _ in range(Kp)] for _ in range(N)]
         logp = [[[sc(pinf) for _ in range(V)] for _ in range(Kp)] for _ in range(N)]
-        y = [[[rng.randrange(V) for _ in range(S)] for _ in range(Kp)] for _ in range(N)]
+        oov = rng.random() < 0.25      # prefix tokens are data to beam_search_advance: any integer
+        y = [[[rng.randrange(-2, V + 3) if oov else rng.randrange(V) for _ in range(S)] for _ in range(Kp)]
+             for _ in range(N)]
         if mode == "none":
             lens = None
         elif mode == "full":
@@ -102,7 +161,9 @@ class C04(PropertyCheck):
         else:
             lens = [[0] * Kp for _ in range(N)]
         c = {"kind": "advance", "N": N, "Kp": Kp, "V": V, "S": S, "width": width, "lens": lens,
-             "prev": prev, "y": y, "logp": logp, "malformed": malformed}
+             "prev": prev, "y": y, "logp": logp, "malformed": malformed,
+             "layout": rng.choice(["contiguous", "contiguous", "strided", "sliced", "permuted"]),
+             "dtype": rng.choice(["float32", "float32", "float64"])}
         if malformed == "width0":
             c["width"] = rng.choice([0, -1])
         elif malformed == "lens_gt_S":
@@ -128,6 +189,22 @@ class C04(PropertyCheck):
         yield self._search_case(rng, 3, 2, 2, 3, False, None)             # eos out of range
         yield self._search_case(rng, 3, 2, 2, -4, False, 1)
         yield self._search_case(rng, 2, 3, 4, 1, True, 3, uniform=True)   # ties everywhere
+        # ---- malformed constructor / call arguments: the documented error class
+        for w in (0, -1):
+            yield self._search_case(rng, 2, 2, w, rng.choice([None, 0]), False, rng.choice([None, 2]),
+                                    malformed="width")
+        for T in (-1, -3):
+            yield self._search_case(rng, 2, T, 2, rng.choice([None, 1]), True, rng.choice([None, 2]),
+                                    malformed="max_iters")
+        # ---- max_iters = 0 (nothing but the initial beam and _to_width), enumerated
+        for V in (1, 2, 3):
+            for width in (1, 2, 5):
+                for eos in (None, 0, -1):
+                    for fa in ((False, True) if eos is not None else (False,)):
+                        for batch in (None, 1, 3):
+                            yield self._search_case(rng, V, 0, width, eos, fa, batch,
+                                                    pad=self._pad_choice(rng, V, eos),
+                                                    via=rng.choice(["instance", "subclass", "nohook"]))
         # ---- small grid, enumerated
         Vs = (1, 2) if not big else (1, 2, 3)
         Ts = (1, 2, 3) if not big else (1, 2, 3, 4)
@@ -138,12 +215,14 @@ class C04(PropertyCheck):
                         for fa in ((False, True) if eos is not None else (False,)):
                             for batch in ((None, 2) if not big else (None, 1, 2, 3)):
                                 yield self._search_case(rng, V, T, width, eos, fa, batch,
-                                                        via=rng.choice(["instance", "subclass"]))
+                                                        via=rng.choice(["instance", "subclass"]),
+                                                        pad=self._pad_choice(rng, V, eos))
         # ---- random stream
         n_rand = 260 if not big else 5000
         for i in range(n_rand):
-            V = rng.choice([2, 3, 3, 4])
-            T = rng.choice([1, 2, 3, 4, 5]) if V < 4 else rng.choice([1, 2, 3, 4])
+            V = rng.choice([2, 3, 3, 4, 5, 6])
+            T = rng.choice([1, 2, 3, 4, 5]) if V < 4 else rng.choice([1, 2, 3, 4]) if V == 4 else \
+                rng.choice([1, 2, 3])
             full = V ** T
             if full + 2 <= (40 if not big else 300) or rng.random() < (0.02 if not big else 0.05):
                 width = rng.choice([1, 2, 3, full - 1, full, full + 1, full + 2, rng.randrange(1, full + 3)])
@@ -152,15 +231,18 @@ class C04(PropertyCheck):
             width = max(1, width)
             eos = rng.choice([None] + list(range(V)) + list(range(V)) + [-1, -V])
             fa = rng.random() < 0.5
-            batch = rng.choice([None, 1, 2, 2, 3, 3])
+            batch = rng.choice([None, 1, 2, 2, 3, 3, 4, 5])
             n = 1 if batch is None else batch
             zeros = rng.random() < 0.2
-            force = [rng.choice([None, 0, 1, 2, 3]) for _ in range(n)] if eos is not None else None
+            noctx = rng.random() < 0.06
+            force = [rng.choice([None, 0, 1, 2, 3]) for _ in range(n)] if eos is not None and not noctx else None
             qbits = rng.choice([8, 12, 12])
             yield self._search_case(rng, V, T, width, eos, fa, batch, zeros=zeros, qbits=qbits, force=force,
                                     hard=zeros and rng.random() < 0.5,
                                     via=rng.choice(["instance", "subclass"]),
-                                    uniform=rng.random() < 0.03)
+                                    uniform=rng.random() < 0.03, pad=self._pad_choice(rng, V, eos),
+                                    lm={"double": rng.random() < 0.2, "noctx": noctx,
+                                        "view": rng.random() < 0.15})
             if i % 4 == 0:
                 # max_iters unset: termination guaranteed by hard eos-forcing (see design note)
                 V2 = rng.choice([2, 3])
@@ -169,12 +251,61 @@ class C04(PropertyCheck):
                 b2 = rng.choice([None, 2, 3])
                 n2 = 1 if b2 is None else b2
                 w2 = rng.choice([1, 2, V2]) if fa2 else rng.choice([1, 2, 3, 5, 8])
+                fl = rng.random() < 0.3
                 yield self._search_case(rng, V2, None, w2, e, fa2, b2, zeros=False, hard=True,
-                                        force=[rng.choice([1, 2, 3]) for _ in range(n2)])
+                                        force=[rng.choice([1, 2, 3]) for _ in range(n2)],
+                                        pad=self._pad_choice(rng, V2, e),
+                                        via="nohook" if fl else rng.choice(["instance", "subclass"]),
+                                        lm={"kind": rng.choice(["hash", "fusion", "mixfusion"])} if fl else None)
+            if i % 8 == 1:
+                # a step limit far beyond the depth at which every element has finished (frozen for long)
+                V2 = rng.choice([2, 3, 4])
+                e = rng.randrange(V2)
+                b2 = rng.choice([None, 2, 3, 4])
+                n2 = 1 if b2 is None else b2
+                fl = rng.random() < 0.3
+                yield self._search_case(rng, V2, rng.choice([7, 9, 12]), rng.choice([1, 2, 3, 5, V2 ** 3 + 1]), e,
+                                        rng.random() < 0.6, b2, hard=True,
+                                        force=[rng.choice([0, 1, 2, 3]) for _ in range(n2)],
+                                        pad=self._pad_choice(rng, V2, e),
+                                        via="nohook" if fl else rng.choice(["instance", "subclass"]),
+                                        lm={"kind": rng.choice(["hash", "fusion"])} if fl else None)
+            if i % 2 == 0:
+                # float mode: the library's own hook, library language models
+                yield self._float_case(rng, big)
             if i % 2 == 0:
                 yield self._advance_case(rng)
             if i % 10 == 0:
                 yield self._advance_case(rng, rng.choice(["width0", "lens_gt_S", "t0_lens", "shape"]))
+
+    def _float_case(self, rng, big):
+        kind = rng.choice(["hash", "fusion", "fusion", "mixfusion", "lookup", "lookup"])
+        V = rng.choice([2, 3, 3, 4, 5])
+        T = rng.choice([1, 2, 3, 4]) if V <= 3 else rng.choice([1, 2, 3])
+        full = V ** T
+        if full + 2 <= 40 or rng.random() < 0.03:
+            width = rng.choice([1, 2, 3, full - 1, full, full + 1, full + 2, rng.randrange(1, full + 3)])
+        else:
+            width = rng.choice([1, 2, 3, 4, 5, 7, 9])
+        width = max(1, width)
+        eos = rng.choice([None] + list(range(V)) + list(range(V)) + [-1])
+        fa = rng.random() < 0.5
+        batch = rng.choice([None, 1, 2, 3, 4])
+        n = 1 if batch is None else batch
+        lm = {"kind": kind, "double": rng.random() < 0.2, "view": rng.random() < 0.15}
+        force = None
+        if kind == "lookup":
+            lm.update({"order": rng.choice([1, 2, 2, 3]), "sos": rng.choice([-1, 0, V - 1, V]),
+                       "table_seed": rng.randrange(1, 1 << 30)})
+        else:
+            lm["noctx"] = rng.random() < 0.06
+            lm["beta"] = rng.choice([0.5, 1.0, 0.25])
+            if eos is not None and not lm["noctx"]:
+                force = [rng.choice([None, 0, 1, 2, 3]) for _ in range(n)]
+        zeros = kind != "lookup" and rng.random() < 0.2
+        return self._search_case(rng, V, T, width, eos, fa, batch, zeros=zeros, force=force,
+                                 hard=zeros and rng.random() < 0.5, via="nohook",
+                                 pad=self._pad_choice(rng, V, eos), lm=lm)
 
     # ------------------------------------------------------------------ implementation
     def _tables(self, case):
@@ -187,9 +318,28 @@ class C04(PropertyCheck):
             depth = (max(ds) + 2) if ds else 3
         else:
             depth = max(T - 1, 0)
+            fd = self._forced_depth(case)
+            if fd is not None:
+                depth = min(depth, fd + 2)
         lm = L.make_lm(V, case["qbits"], case["lm"])
         ctx = L.make_ctx(case["seeds"], case["force"], e_tok)
-        return [L.build_table(lm, ctx[i], case["qbits"], depth, e_tok) for i in range(n)], ctx, e_tok
+        quant = not is_float(case)
+        if case["lm"].get("noctx") or case["lm"].get("kind") == "lookup":
+            # nothing distinguishes the batch elements
+            tb = L.build_table(lm, ctx[0], case["qbits"], depth, e_tok, case["lm"], quant)
+            return [tb] * n, ctx, e_tok
+        return [L.build_table(lm, ctx[i], case["qbits"], depth, e_tok, case["lm"], quant)
+                for i in range(n)], ctx, e_tok
+
+    @staticmethod
+    def _forced_depth(case):
+        """eos is hard-forced for every element from some depth on: no usable path is longer than that
+        depth + 1, whatever max_iters is (lets the step limit be large while the table stays small)."""
+        if not case["lm"].get("hard_force") or norm_eos(case["V"], case["eos"]) in (None, "invalid"):
+            return None
+        if case["lm"].get("noctx") or any(f is None for f in case["force"]):
+            return None
+        return max(case["force"])
 
     @staticmethod
     def _observe(y, lens, lp):
@@ -210,7 +360,7 @@ class C04(PropertyCheck):
         s = L.make_search(lm, case["width"], case["eos"], case["finish_all"], case["pad"], case["qbits"],
                           case.get("via", "instance"))
         with torch.no_grad():
-            y, lens, lp = s({"ctx": ctx}, batch, case["max_iters"])
+            y, lens, lp = s(L.initial_state(case["lm"], ctx), batch, case["max_iters"])
         return s, lm, y, lens, lp
 
     def _state_follows(self, case, s, tables, e_tok):
@@ -218,6 +368,8 @@ class C04(PropertyCheck):
         table's scores for that slot's own path: fails when LM state does not follow the paths."""
         import torch
         out = []
+        if s.hook_log is None:      # float mode: no hook installed, nothing logged
+            return out
         for t, (lpp, q, yp, yl, em) in enumerate(s.hook_log):
             N, K = lpp.shape
             for n in range(N):
@@ -244,15 +396,30 @@ class C04(PropertyCheck):
     def run_impl(self, case):
         if case["kind"] == "advance":
             return self._run_advance(case)
+        batch = case["batch"]
+        if case.get("malformed"):
+            ctx = L.make_ctx(case["seeds"], case["force"], None)
+            self._run_search(case, ctx if batch is not None else ctx[:1], batch)   # must raise
+            return {"accepted": True}
         tables, ctx, e_tok = self._tables(case)
         self._cache = {"key": case_hash(case), "tables": tables}
-        batch = case["batch"]
         s, lm, y, lens, lp = self._run_search(case, ctx if batch is not None else ctx[:1], batch)
         if batch is None:
             elems = [self._observe(y, lens, lp)]
+            yy = y.unsqueeze(1)
         else:
             elems = [self._observe(y[:, n], lens[n], lp[n]) for n in range(batch)]
-        obs = {"elems": elems, "S": int(y.size(0)), "steps": len(s.hook_log),
+            yy = y
+        # trailing rows of each element that hold nothing but pad_value (frozen elements are right-padded)
+        pad_rows = []
+        for n in range(yy.size(1)):
+            r = 0
+            while r < yy.size(0) and bool((yy[yy.size(0) - 1 - r, n] == case["pad"]).all()):
+                r += 1
+            pad_rows.append(r)
+        obs = {"elems": elems, "S": int(y.size(0)), "pad_rows": pad_rows,
+               "steps": len(s.hook_log) if s.hook_log is not None else len({c[0] for c in lm.calls}),
+               "dtypes": [str(y.dtype), str(lens.dtype)],
                "state": self._state_follows(case, s, tables, e_tok),
                "shape_ok": (list(lp.shape) == ([case["width"]] if batch is None else [batch, case["width"]])
                             and list(lens.shape) == list(lp.shape)
@@ -279,14 +446,34 @@ class C04(PropertyCheck):
         def fl(v):
             return float("-inf") if v == "-inf" else float(Fraction(v))
 
+        dt = torch.float64 if case.get("dtype") == "float64" else torch.float32
+        layout = case.get("layout", "contiguous")
+        strided = layout != "contiguous"
+
         def T(x):
-            return torch.tensor([[[fl(v) for v in r] for r in m] for m in x], dtype=torch.float32)
+            return torch.tensor([[[fl(v) for v in r] for r in m] for m in x], dtype=dt)
+
+        def view(t):
+            """the same values as a non-contiguous view: every second entry of a tensor twice as long
+            (strided), the left part of a wider tensor (sliced: dimensions cannot be merged without a
+            copy), or stored with the dimensions in reverse order (permuted)"""
+            if not strided or t.dim() == 0 or t.numel() == 0:
+                return t
+            if layout == "strided":
+                big = torch.stack([t, torch.full_like(t, 7)], -1).flatten(-2)
+                return big[..., ::2]
+            if layout == "sliced":
+                big = torch.cat([t, torch.full_like(t[..., :1], 7)], -1)
+                return big[..., :-1]
+            dims = list(range(t.dim()))[::-1]
+            return t.permute(dims).contiguous().permute(dims)
         N, Kp, V, S = case["N"], case["Kp"], case["V"], case["S"]
-        logp = T(case["logp"]).reshape(N, Kp, V)
-        prev = torch.tensor([[fl(v) for v in r] for r in case["prev"]], dtype=torch.float32).reshape(
-            N, len(case["prev"][0]) if case["prev"] else Kp)
-        y = torch.tensor(case["y"], dtype=torch.long).reshape(N, Kp, S).permute(2, 0, 1).contiguous()
-        lens = None if case["lens"] is None else torch.tensor(case["lens"], dtype=torch.long)
+        logp = view(T(case["logp"]).reshape(N, Kp, V))
+        prev = view(torch.tensor([[fl(v) for v in r] for r in case["prev"]], dtype=dt).reshape(
+            N, len(case["prev"][0]) if case["prev"] else Kp))
+        y = torch.tensor(case["y"], dtype=torch.long).reshape(N, Kp, S).permute(2, 0, 1)
+        y = view(y.contiguous()) if layout in ("strided", "sliced") else y if strided else y.contiguous()
+        lens = None if case["lens"] is None else view(torch.tensor(case["lens"], dtype=torch.long))
         yn, ln, lpn, src = beam_search_advance(logp, case["width"], prev, y, lens)
         K = min(case["width"], Kp * V)
         rows = []
@@ -316,6 +503,8 @@ class C04(PropertyCheck):
                 return None
             return {"op": "c04.advance", "case": {"V": case["V"], "width": case["width"], "S": case["S"],
                                                   "lens_given": lens is not None, "rows": rows}}
+        if case.get("malformed"):
+            return None
         if self._cache.get("key") == case_hash(case) and "tables" in self._cache:
             tables = self._cache["tables"]
             impl = self._cache.get("impl")
@@ -334,8 +523,9 @@ class C04(PropertyCheck):
                 q = [s["path"] for s in impl["elems"][i] if "path" in s]
             queries.append(q)
         T = case["max_iters"]
-        comp = T if (T is not None and case["V"] ** T <= 300 and norm_eos(case["V"], case["eos"]) != "invalid") \
-            else None
+        fd = self._forced_depth(case)
+        small = T is not None and (case["V"] ** T <= 300 or (fd is not None and case["V"] ** (fd + 1) <= 300))
+        comp = T if (small and norm_eos(case["V"], case["eos"]) != "invalid") else None
         batch = [{"table": [[list(h), [frac_str(x) for x in sc]] for h, sc in tb.items()]} for tb in tables]
         return {"op": "c04.search", "case": {
             "V": case["V"], "width": case["width"], "eos": case["eos"], "finish_all": case["finish_all"],
@@ -360,7 +550,7 @@ class C04(PropertyCheck):
             if flags.get("ninf_choice"):
                 return []
             return [f"model raises {m['error']} ({m.get('detail')}), implementation returned a value"]
-        if flags.get("tie"):
+        if tie_like(case, flags):
             return []
         out = []
         if case["kind"] == "advance":
@@ -383,13 +573,15 @@ class C04(PropertyCheck):
             return out[:5]
         if len(impl["elems"]) != len(m["elems"]):
             return [f"batch size impl={len(impl['elems'])} model={len(m['elems'])}"]
+        if impl["S"] != m["S"]:
+            out.append(f"sequence dimension of the returned paths impl={impl['S']} model={m['S']}")
         for n, (a, b) in enumerate(zip(impl["elems"], m["elems"])):
             if len(a) != len(b):
                 out.append(f"element {n}: {len(a)} slots, model {len(b)}")
                 continue
             fa = [s for s in a if s["score"] != "-inf"]
             fb = [{"score": s["score"], "len": s["len"], "path": s["path"]} for s in b if s["score"] != "-inf"]
-            if fa != fb:
+            if not same_slots(case, fa, fb):
                 out.append(f"element {n}: finite slots impl={fa} model={fb}")
         return out[:5]
 
@@ -401,6 +593,12 @@ class C04(PropertyCheck):
         flags = (model or {}).get("flags", {})
         spec = (model or {}).get("spec") or {}
         fails = []
+        if case.get("malformed"):
+            want = "ValueError" if case["malformed"] == "width" else "RuntimeError"
+            if impl.get("error") != want:
+                return [(f"malformed {case['malformed']} (width={case['width']}, max_iters={case['max_iters']}): "
+                         f"expected {want}, got {impl.get('error', 'a value')}", None)]
+            return []
         if "error" in impl:
             expected = None
             if norm_eos(case["V"], case["eos"]) == "invalid":
@@ -423,6 +621,16 @@ class C04(PropertyCheck):
         eos = spec.get("eos")
         if not impl.get("shape_ok"):
             fails.append(("returned tensors do not have shape (S, N*, width), (N*, width), (N*, width)", None))
+        if impl.get("dtypes", ["torch.int64"] * 2) != ["torch.int64"] * 2:
+            fails.append((f"paths / lengths are not long tensors: {impl['dtypes']}", None))
+        loose = tie_like(case, flags)
+        # frozen elements are right-padded with pad_value from the row at which they finished
+        if not loose and "frozen" in flags and "pad_rows" in impl:
+            for n, f in enumerate(flags["frozen"]):
+                if f is not None and n < len(impl["pad_rows"]) and impl["S"] - impl["pad_rows"][n] > f:
+                    fails.append((f"element {n} finished when the paths had {f} rows, but rows {f}.."
+                                  f"{impl['S'] - 1} of its beam are not all pad_value={case['pad']} "
+                                  f"(only the last {impl['pad_rows'][n]} are)", "C04.pad"))
         chains = spec.get("chain", [])
         for n, slots in enumerate(impl["elems"]):
             if len(slots) != width:
@@ -455,7 +663,7 @@ class C04(PropertyCheck):
                     fails.append((f"element {n}: path {p} continues after eos={eos}", "C04.eos"))
                 if case["max_iters"] is not None and len(p) > case["max_iters"]:
                     fails.append((f"element {n}: path {p} longer than max_iters", None))
-                if k < len(ch) and ch[k] != s["score"]:
+                if k < len(ch) and not close(case, ch[k], s["score"]):
                     fails.append((f"element {n}: path {p} reported {s['score']}, the LM's chained score of it "
                                   f"is {ch[k]}", "C04.score"))
         for msg in impl.get("state", []):
@@ -463,14 +671,14 @@ class C04(PropertyCheck):
         if not impl.get("lm_contract", True) and not flags.get("ninf_choice"):
             fails.append(("the LM was called with idx > hist.size(0)", None))
         # batch independence (tie cases may legitimately differ: topk is free to break ties per call)
-        if "single" in impl and not flags.get("tie"):
+        if "single" in impl and not loose:
             for n, (a, b) in enumerate(zip(impl["elems"], impl["single"])):
                 if isinstance(b, dict):
                     fails.append((f"element {n} alone raises {b['error']}", "C04.batch"))
                     continue
                 fa = [s for s in a if s["score"] != "-inf"]
                 fb = [s for s in b if s["score"] != "-inf"]
-                if fa != fb:
+                if not same_slots(case, fa, fb):
                     fails.append((f"element {n}: in the batch {fa}, alone {fb}", "C04.batch"))
         # completeness
         comp = spec.get("complete")
@@ -480,7 +688,8 @@ class C04(PropertyCheck):
                     continue
                 want = sorted((tuple(c["path"]), c["score"]) for c in comp[n])
                 got = sorted((tuple(s["path"]), s["score"]) for s in slots if s["score"] != "-inf")
-                if want != got:
+                if len(want) != len(got) or any(a[0] != b[0] or not close(case, a[1], b[1])
+                                                for a, b in zip(want, got)):
                     fails.append((f"element {n}: width {width} >= {len(want)} complete sequences but returned "
                                   f"{got} instead of {want}", "C04.complete"))
         return fails[:8]
@@ -540,13 +749,13 @@ class C04(PropertyCheck):
 
     # ------------------------------------------------------------------ evidence
     def nontrivial(self, case, impl):
-        if not isinstance(impl, dict) or "error" in impl:
+        if not isinstance(impl, dict) or "error" in impl or case.get("malformed"):
             return False
         if case["kind"] == "advance":
             return min(case["width"], case["Kp"] * case["V"]) < case["Kp"] * case["V"] and case["S"] > 0
         T = case["max_iters"]
         fin = [len([s for s in e if s["score"] != "-inf"]) for e in impl["elems"]]
-        pruned = T is not None and T >= 2 and case["width"] < case["V"] ** T
+        pruned = T is not None and T >= 2 and case["width"] < case["V"] ** min(T, 8)
         multi = len(impl["elems"]) > 1 and impl["steps"] >= 2 and case["eos"] is not None
         return (max(fin) >= 2 and (pruned or T is None)) or multi
 
@@ -557,6 +766,8 @@ class C04(PropertyCheck):
             fl = (None,) + fl
             if fl[1].get("tie"):
                 ft.append(case["kind"] + ".stream=tie(predicates only)")
+            elif tie_like(case, fl[1]):
+                ft.append(case["kind"] + ".stream=near-tie in float mode(predicates only)")
             elif fl[1].get("ninf_choice"):
                 ft.append(case["kind"] + ".stream=exact(finite slots; -inf ties present)")
             else:
@@ -568,18 +779,36 @@ class C04(PropertyCheck):
     def _tags(self, case, impl):
         if case["kind"] == "advance":
             t = ["advance", f"advance.lens={'none' if case['lens'] is None else 'given'}",
-                 f"advance.S={'0' if case['S'] == 0 else '>0'}"]
+                 f"advance.S={'0' if case['S'] == 0 else '>0'}",
+                 "advance.layout=" + case.get("layout", "contiguous"),
+                 "advance.dtype=" + case.get("dtype", "float32")]
+            if any(not (0 <= x < case["V"]) for m_ in case["y"] for r in m_ for x in r):
+                t.append("advance.prefix_tokens_out_of_vocabulary")
             if case.get("malformed"):
                 t.append("advance.malformed=" + case["malformed"])
             return t
         V, T = case["V"], case["max_iters"]
+        if case.get("malformed"):
+            return ["search", "search.malformed=" + case["malformed"]]
         t = ["search", f"V={V}", f"max_iters={T}", f"batch={case['batch']}",
-             f"finish_all={case['finish_all']}", f"qbits={case['qbits']}", "via=" + case.get("via", "instance")]
+             f"finish_all={case['finish_all']}", "via=" + case.get("via", "instance"),
+             "mode=" + ("float(tolerance)" if is_float(case) else f"exact(qbits={case['qbits']})"),
+             "lm.kind=" + case["lm"].get("kind", "hash")]
+        p_ = case["pad"]
+        en = norm_eos(V, case["eos"])
+        t.append("pad=" + ("-1(default)" if p_ == -1 else "eos" if p_ == en else "token" if 0 <= p_ < V
+                           else "beyond_vocab" if p_ >= V else "negative"))
+        if case["lm"].get("double"):
+            t.append("lm=float64_logits")
+        if case["lm"].get("noctx"):
+            t.append("initial_state=None")
+        if case["lm"].get("view") and case["lm"].get("kind") != "lookup":
+            t.append("lm=non_contiguous_logits")
         e = case["eos"]
         t.append("eos=" + ("unset" if e is None else "negative" if e < 0 and -V <= e else
                            "invalid" if norm_eos(V, e) == "invalid" else "token"))
         if T is not None:
-            full = V ** T
+            full = V ** min(T, 8)
             w = case["width"]
             t.append("width:" + ("1" if w == 1 else "<full" if w < full else "=full" if w == full else ">full"))
         if case["lm"].get("zeros"):
@@ -589,6 +818,9 @@ class C04(PropertyCheck):
         if isinstance(impl, dict) and "elems" in impl:
             if any(any(s["score"] == "-inf" for s in e_) for e_ in impl["elems"]):
                 t.append("has_neginf_slots")
+            if fl_ := self._flagmap.get(case_hash(case)):
+                if any(f is not None and f < impl["S"] for f in fl_[0].get("frozen", [])):
+                    t.append("frozen_element_padded")
             if len(impl["elems"]) > 1 and "single" in impl:
                 ls = {max([s.get("len", 0) for s in e_] + [0]) for e_ in impl["elems"]}
                 if len(ls) > 1:
@@ -650,6 +882,21 @@ class C04(PropertyCheck):
         if case["finish_all"]:
             c = dict(case)
             c["finish_all"] = False
+            yield c
+        if case["pad"] != -1:
+            c = dict(case)
+            c["pad"] = -1
+            yield c
+        for k in ("double", "noctx", "view"):
+            if case["lm"].get(k):
+                c = dict(case)
+                c["lm"] = dict(case["lm"])
+                c["lm"][k] = False
+                yield c
+        if case["lm"].get("kind") in ("fusion", "mixfusion"):
+            c = dict(case)
+            c["lm"] = dict(case["lm"])
+            c["lm"]["kind"] = "hash"
             yield c
 
 
